@@ -72,8 +72,9 @@ CHECKS = {
    cat="proof",
    text="FRAGMENT (exit status): nano_virt --run (reference), nano_vm run_standalone / main and the wrapper main text emitted by the real generator at check time are each "
         "verified against ONE spec function of (VmResult, top of stack) with vm_execute/vm_get_result arbitrary (U). The round trip deserialize(serialize(m)) = m is NOT "
-        "decided (the self-composition of the real pair exhausts memory; DESIGN 10.10); the loader half of it that a contract reaches - no entry loop of nvm_deserialize stops "
-        "while a complete entry is left, and an accepted file had every section consumed exactly - is discharged under C12.deser.* / C13.deser.*.",
+        "decided for modules of arbitrary size (the self-composition of the real pair with symbolic sizes exhausts memory; DESIGN 10.10); bounded stand-ins on FIXED module "
+        "shapes with arbitrary contents (real serializer -> real loader with the real CRC: accepted, every field equal; C10.rt.shape.*) and the launchers' "
+        "'global initialisers run once' (C10.init.once) are discharged; the loader's all-or-nothing / completeness ghosts are under C12.deser.* / C13.deser.*.",
    ref="DESIGN 5/C10, 10.10, 10.11", note=TB + " Round trip, output equality (structural: same TRAP_PRINT branch) and wrapper blob embedding are not decided.",
    tech="CBMC DFCC contracts on the real exit paths of the three launchers against one spec function"),
  "C19": dict(
@@ -81,7 +82,8 @@ CHECKS = {
    text="FRAGMENT (instruction encoder only): 2-safety by self-composition of the real isa_encode for each of the 256 opcode bytes: two instructions that agree on the "
         "opcode and on the operand fields the table row names, arbitrary in everything else (padding, unused slots, operand_types, byte_length), encode to identical bytes; "
         "and the bytecode generator's emit_op (real codegen.c) for every defined opcode, arbitrary operand values and buffer fill level: bytes emitted are the encoding of "
-        "exactly the operands passed, at the returned offset, memory-safe across buffer growth. Serializer, the rest of the generator, transpiler, drivers: NOT decided.",
+        "exactly the operands passed, at the returned offset, memory-safe across buffer growth; the serializer on one fixed module shape: two runs give the same bytes "
+        "outside the checksum field although allocations hand out arbitrary memory (bounded). The rest of the generator, module-path handling, transpiler, drivers: NOT decided.",
    ref="DESIGN 5/C19", note=TB + " Everything upstream of the encoder needs whole-program information flow and is outside contract reach.",
    tech="CBMC self-composition harness on the real isa_encode (256 opcode bytes) + functional-determinism obligation on the real emit_op per defined opcode"),
 
@@ -114,14 +116,17 @@ CHECKS = {
    cat="proof",
    text="nvm_deserialize under contract for every byte string up to the 100 MB limit (loop contracts, X over section kind): non-NULL => "
         "magic/version/section_count valid AND the checksum was computed over exactly (data+32,size-32), equals the stored one, and was "
-        "checked before anything was built; every directory entry of an accepted file lies inside the file. CRC burst lemmas L0-L3 on the REAL "
-        "table and the mechanically extracted REAL loop body over the full 2^32/2^40 domains, loop coverage contract of nvm_crc32, header validator contract. "
+        "checked before anything was built; every directory entry of an accepted file lies inside the file; loading is all-or-nothing (an accepted file had every "
+        "known section consumed exactly; no entry loop stops while a complete entry is left). Section arms: code, debug, other (quick), functions (thorough), imports "
+        "(bounded); the strings arm is OPEN (exhausts 44 GB) - the string pool is covered by the fixed-shape round trip C10.rt.shape.strings only. CRC burst lemmas L0-L3 on the REAL "
+        "table and the mechanically extracted REAL loop body over the full 2^32/2^40 domains, loop coverage contract of nvm_crc32, whole-function value against the "
+        "bit-serial CRC-32 of the property's polynomial for buffers <= 6 bytes (bounded), header validator contract. "
         "The induction from the lemmas to 'every burst <= 32 bits is refused' is argued (glue), not machine-checked.",
    ref="DESIGN 5/C12", note=TB + " Tails / damage wider than 32 bits: probabilistic, not claimed. imports arm of the loader: bounded stand-in.",
    tech="CBMC DFCC function + loop contracts on the real nvm_format.c; algebraic lemmas on the real CRC table/step"),
  "C13": dict(
    cat="proof",
-   text="Loader: memory-safe and terminating for all byte strings <= 100 MB (loop contracts with decreases; X over section kind; imports arm bounded). "
+   text="Loader: memory-safe and terminating for all byte strings <= 100 MB (loop contracts with decreases; X over section kind: code, debug, other, functions; imports arm bounded; strings arm OPEN). "
         "Verifier: verify_structure / verify_function / nvm_verify under contracts with loop contracts: safe, terminating, ok => MOD_WF (function ranges without "
         "wrap, jump targets, call/string/import/local indices, every function walked to its end). VM: one real vm_core_execute step per opcode from any "
         "VM_INV state with a materialised footprint: no memory fault, no fatal arithmetic, VM_INV again, no decode error on a verified instruction. "
